@@ -65,11 +65,44 @@ def has_int_pow(s):
     return False
 
 
+_GEN = {}
+_GEN_CHECKED = {'fgen': 0, 'cgen': 0}
+
+
+def _generator(backend):
+    """fgen(e) / cgen(e) build a fresh code generator per call (1.7 ms of introspection each); the same
+    generator classes are instantiated once per process here, exactly as those entry points do, and the
+    first calls are compared against the entry points themselves."""
+    if backend not in _GEN:
+        try:
+            if backend == 'fgen':
+                from loki.backend.fgen import FortranCodegen
+                from loki.backend.style import FortranStyle
+                _GEN[backend] = FortranCodegen(style=FortranStyle(), depth=0)
+            else:
+                from loki.backend.cgen import CCodegen
+                from loki.backend.style import DefaultStyle
+                _GEN[backend] = CCodegen(style=DefaultStyle(), depth=0)
+        except Exception:  # pylint: disable=broad-except
+            _GEN[backend] = None
+    return _GEN[backend]
+
+
 def emit(expr, backend):
     """-> (text, None) | (None, 'ExcType: msg')"""
     from loki import fgen, cgen
+    entry = fgen if backend == 'fgen' else cgen
+    gen = _generator(backend)
     try:
-        t = (fgen if backend == 'fgen' else cgen)(expr)
+        if gen is None:
+            t = entry(expr)
+        else:
+            t = gen.visit(expr) or ''
+            if _GEN_CHECKED[backend] < 50:
+                _GEN_CHECKED[backend] += 1
+                if t != entry(expr):
+                    _GEN[backend] = None
+                    t = entry(expr)
     except Exception as ex:  # pylint: disable=broad-except
         return None, f'{type(ex).__name__}: {ex}'
     if not isinstance(t, str):
@@ -90,10 +123,22 @@ def tree_values(expr, spec, names):
 
 
 def shape_of(X):
-    """Token-kind shape of a text: identifiers -> V (literals, signs, operators, parentheses kept)."""
+    """Token-kind shape of a text: every identifier and every unsigned literal becomes the atom A;
+    signs, operators, parentheses and function names are kept.  Two texts of the same shape are parsed
+    alike by any grammar-driven parser."""
     if X.toks is None:
         return None
-    return ' '.join('V' if k == 'name' and v not in ('pow', 'true', 'false') else v for k, v in X.toks)
+    out = []
+    for k, v in X.toks:
+        if k in ('int', 'real'):
+            out.append('A')
+        elif k == 'name':
+            out.append(v if v == 'pow' else 'A')
+        elif k == 'dotop' and v.lower().startswith(('.true.', '.false.')):
+            out.append('A')
+        else:
+            out.append(v)
+    return ' '.join(out)
 
 
 def judge(expr, spec, backend, names, tvals=None):
@@ -239,7 +284,7 @@ def work(arg):
                 vt = tuple(r['vars'])
                 res['texts'][b].add(hash((r['text'], vt)))
                 if by_shape and r['kind'] != 'reject' and r['shape'] is not None:
-                    key = ('s', r['shape'], r['rtype'], tuple(t for _, t in vt), r['nonstd'])
+                    key = ('s', r['shape'], r['rtype'])
                 else:
                     key = ('t', r['text'], vt)
                 old = res['recs'][b].get(key)
@@ -361,7 +406,12 @@ def space(ctx):
     return items, bound
 
 
+_IN_RUN = False
+
+
 def run(ctx):
+    global _IN_RUN  # pylint: disable=global-statement
+    _IN_RUN = True      # replays issued by the runner right after run(): their texts were just compiled in phase 2
     _silence()
     names = G.names_for_seed(ctx.seed)
     items, bound = space(ctx)
@@ -392,6 +442,7 @@ def run(ctx):
         for sig, case, det in r['viol']:
             ctx.violation(sig, case, det)
     ctx.require(tot['n'] == n_items, 'lost work items')
+    t_phase1 = ctx.elapsed()
     # ---- phase 2: ground truth for the emitted texts
     jobs = []
     for b in backends:
@@ -421,7 +472,7 @@ def run(ctx):
              'SubstituteExpressionsMapper / simplify; non-trivial = the tree takes >= 2 distinct defined values over the grid',
         trees=n_items, judged_fgen=judged['fgen'], judged_cgen=judged['cgen'], cgen_int_pow_not_judged=tot['skipped_intpow'],
         distinct_texts_fgen=len(texts['fgen']), distinct_texts_cgen=len(texts['cgen']),
-        compiled_by='token shape (identifiers abstracted), one representative text per shape' if by_shape
+        compiled_by='token shape (identifiers and unsigned literals abstracted) x result type: one representative text each' if by_shape
         else 'every distinct text',
         compiled_gfortran=compiled['fgen'], compiled_gcc=compiled['cgen'],
         traces_validated_against_impl=comp['conf_checked'],
@@ -429,7 +480,7 @@ def run(ctx):
         rejected_texts_confirmed_by_compiler=comp['reject_confirmed'],
         derived_trees_changed_by_loki=tot['derived_changed'], derived_trees_not_judged=tot['refused'],
         samples=[items[0], items[n_items // 3], items[-1]],
-        bound=bound,
+        bound=bound, wall_judge_s=round(t_phase1, 1), wall_compile_s=round(ctx.elapsed() - t_phase1, 1),
     )
     ctx.assumptions += [
         'gfortran 12 (-std=f2008; -std=gnu for texts using the sign-after-operator extension) and gcc 12 are ground truth '
@@ -452,7 +503,8 @@ def replay(case):
         return None
     msg = r['detail']
     # confirm with the real compiler where the grid fits
-    if r['text'] is not None and len(r['vars']) <= B.MAXVARS and r['kind'] in ('value', 'nonstd', 'reject'):
+    if not _IN_RUN and r['text'] is not None and len(r['vars']) <= B.MAXVARS \
+            and r['kind'] in ('value', 'nonstd', 'reject'):
         rec = dict(id=0, text=r['text'], rtype=r['rtype'], vars=r['vars'], mask=r['mask'])
         if b == 'fgen':
             got = B.eval_fortran([rec], POOLS, std='gnu').get(0)
